@@ -54,11 +54,11 @@ def run(ctx):
     if quick:
         fams.append(("rs_one4", [1, 2], 4, "sim", 400))
     else:
-        fams += [("rs_one3", [1], 3, None, 30000), ("rs_two3", [1, 2], 3, None, 30000), ("rs_sim5", [1, 2], 5, "sim", 5000)]
+        fams += [("rs_one3", [1], 3, None, 6000), ("rs_two3", [1, 2], 3, None, 6000), ("rs_sim5", [1, 2], 5, "sim", 2000)]
     exhaustive = True
     for name, sides, nops, mode, limit in fams:
         if mode == "sim":
-            cases = sc.generate(ctx, name, sides, nops, GAPS, "std", filt="disjoint", simulate=(60, ctx.seed + 9))
+            cases = sc.generate(ctx, name, sides, nops, GAPS, "std", filt="cleandisjoint", simulate=(60, ctx.seed + 9))
             exhaustive = False
         else:
             cases = sc.generate(ctx, name, sides, nops, GAPS, "std", filt="disjoint")
@@ -75,4 +75,4 @@ def replay(ctx, rep):
 
 
 if __name__ == "__main__":
-    main("C06", run, replay)
+    main("C06", run, replay, level="fault_enumeration")
